@@ -488,6 +488,16 @@ def run(ctx):
                                          and c.args[0].id == 'encoding' for c in ast.walk(n.test)) \
                 and any(isinstance(b, ast.Assign) and any(isinstance(t, ast.Name) and t.id == 'encoding' for t in b.targets) for b in n.body):
             okprobe = True
+            # ... and nothing else decides whether the probe is made: the normal form is ASCII, so a text-dependent condition in front of
+            # it (`only when the URL has non-ASCII characters`) switches the probe off exactly when the normal form is parsed again
+            t_ = n.test
+            conj = t_.values if isinstance(t_, ast.BoolOp) and isinstance(t_.op, ast.And) else [t_]
+            extra = [x for x in conj if not any(isinstance(c, ast.Call) and U.attr_name(c) == 'encode' and c.args and isinstance(c.args[0], ast.Name)
+                                                and c.args[0].id == 'encoding' for c in ast.walk(x))
+                     and any(isinstance(y, ast.Name) and y.id in pfn.params for y in ast.walk(x))]
+            ck.expect(not extra, 'C10-D1', pfn.qual, 'the ASCII-transparency probe is unconditional',
+                      'the probe is made only when `%s` holds: an all-ASCII URL (every normal form is one) skips it, so under UTF-16 / UTF-7 / hz the '
+                      'normal form is escaped with the document codec and changes each time it is parsed' % (norm_text(extra[0])[:60] if extra else ''), pfn.loc(n))
             # the probe must exercise every printable ASCII character: hz rewrites only '~', unicode_escape only '\\',
             # shift_jisx0213 only '\\' and '~' - a probe of a few letters lets them through
             for c in ast.walk(n.test):
